@@ -46,7 +46,7 @@ def fam_group(fam):
     return {'xml': 'xml', 'soap11': 'xml', 'soap12': 'xml', 'json': 'dict', 'yaml': 'dict', 'msgpack': 'dict', 'http': 'flat'}[fam]
 
 
-def collect(ctx, with_lxml=False, families=None):
+def collect(ctx, with_lxml=False, families=None, positions=None):
     """Run every case x position x family; -> list of records (case, pos, fam, obs)."""
     d = V.export(ctx)
     cases = d['cases']
@@ -64,9 +64,11 @@ def collect(ctx, with_lxml=False, families=None):
             if v is V.SKIP:
                 continue
             for pos in V.positions_of(c, fam):
+                if positions is not None and pos not in positions:
+                    continue
                 okc = ok_value.get((c['group'], c['ty'], c.get('facet')))
                 ok = V.value_of(okc, fam) if okc is not None else None
-                if pos == 'array' and (ok is None or ok is V.SKIP):
+                if pos in ('array', 'rep', 'repfield') and (ok is None or ok is V.SKIP):
                     continue
                 shape = V.call_shape(c, pos, T, v, ok)
                 obs = runner.run(T, pos, fam, 'soft', shape)
